@@ -171,9 +171,12 @@ class Picker:
         rnd = self.rnd
         s = rnd.choice(self.tags)
         d = self.dims(s)
-        k = rnd.randint(0, 4)
+        k = rnd.randint(0, 5)
         if k == 0:
             return R([("NoSuchTag_%d" % rnd.randint(0, 99), [])])
+        if k == 5 and s["type"]["k"] == "struct":           # the path goes THROUGH a member that does not exist
+            lv = [(s["name"], [] if not d else [0] * len(d)), ("nope", [] if rnd.random() < 0.7 else [1]), (rnd.choice(["level", "x", "LEN"]), [])]
+            return R(lv, s["scope"], bit=rnd.choice([None, None, 3]), count=rnd.choice([None, None, 2]))
         if k == 1 and d:
             return R([(s["name"], [x + rnd.randint(0, 3) for x in d])], s["scope"])
         if k == 2 and d:
@@ -298,6 +301,13 @@ def bits_sessions(rnd, n, prefix="bits"):
         if rnd.random() < 0.5:
             dup = [R([("Wd", [])], bit=b1, value=True), R([("Wd", [])], bit=b1, value=False), R([("Wa", [1])], bit=b1 % 32, value=True)]
         calls += [S.write_call(dup), S.read_call([R([("Wd", [])]), R([("Wd", [])], bit=b1), R([("Wa", [])], count=3)])]
+        # bit writes next to requests that cannot succeed, at every position, after earlier bit-write calls
+        bad1 = dict(R([("Wa", [20])]), value=1)
+        bad2 = dict(R([("NoSuchTag", [])], bit=2), value=True)
+        mixes = [[bad1, R([("Wd", [])], bit=b2, value=False)], [R([("Wa", [0])], bit=5, value=True), bad2, R([("Wd", [])], bit=b1, value=False)],
+                 [bad2, bad1, R([("Wa", [2])], bit=31, value=True)]]
+        for mx in mixes[:2] if i % 2 else mixes[1:]:
+            calls += [S.write_call(mx), S.read_call([R([("Wd", [])]), R([("Wa", [])], count=3)])]
         j = rnd.choice([0, nb - 32])
         vals = [rnd.random() < 0.5 for _ in range(nb - j)]
         calls += [S.write_call([R([("Flags", [j])], count=nb - j, value=vals)]), S.read_call([R([("Flags", [])], count=nb)]),
